@@ -221,3 +221,5 @@ Definition wf_universe (U : universe) : bool :=
   bool_decide (U !! 0%N = None) &&
   forallb (fun kv => wf_tx kv.1 kv.2) (map_to_list U) &&
   ins_in_range_b U.
+
+Definition universe_of_list (l : list tx) : universe := list_to_map (map (fun t => (t_id t, t)) l).
